@@ -270,7 +270,18 @@ func (w *Worktree) diffTreeWithStaging(t *object.Tree, reverse bool) (merkletrie
 		return nil, err
 	}
 
-	to := mindex.NewRootNode(idx)
+	// A tree-vs-index comparison never involves the worktree, so the
+	// skip-worktree flag must not hide entries from it (the index noder
+	// reports flagged entries as Skip, which the merkletrie steps over):
+	// compare against a view of the index with the flag cleared.
+	view := &index.Index{Version: idx.Version, Entries: make([]*index.Entry, len(idx.Entries))}
+	for i, e := range idx.Entries {
+		c := *e
+		c.SkipWorktree = false
+		view.Entries[i] = &c
+	}
+
+	to := mindex.NewRootNode(view)
 
 	if reverse {
 		return merkletrie.DiffTree(to, from, diffTreeIsEquals)
